@@ -7,7 +7,7 @@ package p9
 
 type verifFidSet struct {
 	dir, file, openFile, openDir, other, otherFile fid
-	newBase                                       fid
+	newBase                                        fid
 }
 
 // verifSchedSetup: one server, two connections, tree /d/f, /e/g, with two
@@ -173,10 +173,11 @@ func verifOpMsg(op int, f verifFidSet, onFile bool, alt bool) message {
 
 // VerifH_C07_Pair: one ordered pair of operations in one path relation per
 // scenario (verifParam "scenario"), two threads.
-//   relation 0: same path, two different fids of one connection
-//   relation 1: A on the directory /d, B on its child /d/f (or the other way round for file ops)
-//   relation 2: unrelated paths (/d or /d/f  vs  /e or /e/g)
-//   relation 3: same path from two connections
+//
+//	relation 0: same path, two different fids of one connection
+//	relation 1: A on the directory /d, B on its child /d/f (or the other way round for file ops)
+//	relation 2: unrelated paths (/d or /d/f  vs  /e or /e/g)
+//	relation 3: same path from two connections
 func VerifH_C07_Pair() {
 	sc := verifParam("scenario", 0)
 	opA := sc % verifNOps
@@ -314,8 +315,9 @@ func verifFrame(tg uint16, m message) []byte {
 }
 
 // VerifH_C14_Flush: request A (held in the backend) and a Tflush B, per scenario:
-//   A in {Tread, Twrite, Twalk 2 components, Trenameat};
-//   B flushes {A's tag, an idle tag, its own tag}; optional second flush C naming A or B.
+//
+//	A in {Tread, Twrite, Twalk 2 components, Trenameat};
+//	B flushes {A's tag, an idle tag, its own tag}; optional second flush C naming A or B.
 func VerifH_C14_Flush() {
 	sc := verifParam("scenario", 0)
 	kindA := sc % 4
@@ -461,13 +463,19 @@ func verifC16Op(op int, cs *connState, f verifFidSet) func() {
 	case 2:
 		return func() { verifC16Reply(cs.handle(&twalk{fid: f.file, newFID: f.newBase + 2})) }
 	case 3:
-		return func() { verifC16Reply(cs.handle(&tlcreate{fid: f.dir, Name: "n", OpenFlags: ReadWrite, Permissions: 0644})) }
+		return func() {
+			verifC16Reply(cs.handle(&tlcreate{fid: f.dir, Name: "n", OpenFlags: ReadWrite, Permissions: 0644}))
+		}
 	case 4:
 		return func() { verifC16Reply(cs.handle(&tunlinkat{Directory: f.dir, Name: "f"})) }
 	case 5:
-		return func() { verifC16Reply(cs.handle(&trenameat{OldDirectory: f.dir, OldName: "f", NewDirectory: f.dir, NewName: "r"})) }
+		return func() {
+			verifC16Reply(cs.handle(&trenameat{OldDirectory: f.dir, OldName: "f", NewDirectory: f.dir, NewName: "r"}))
+		}
 	case 6:
-		return func() { verifC16Reply(cs.handle(&trenameat{OldDirectory: f.dir, OldName: "f", NewDirectory: f.other, NewName: "x"})) }
+		return func() {
+			verifC16Reply(cs.handle(&trenameat{OldDirectory: f.dir, OldName: "f", NewDirectory: f.other, NewName: "x"}))
+		}
 	case 7:
 		return func() { verifC16Reply(cs.handle(&trename{fid: f.file, Directory: f.other, Name: "y"})) }
 	case 8:
